@@ -75,8 +75,7 @@ def check_out_of_data(ctx, F):
         else:
             ctx.ok('R2', role, b.defpath, '%d (path, read) pairs: every continuing path has the Some/Continue decision of the read' % n_reads, key=key)
     ctx.extra['chain_readers'] = n
-    if n < 4:
-        ctx.bad('R2', 'floor: chain-coder reading functions', CHAIN, 'only %d functions with backend reads found (>= 4 expected)' % n, key='R2/floor/chain-readers')
+    ctx.floor('R2', 'floor: chain-coder reading functions', CHAIN, n, 4, 'only %d functions with backend reads found (>= 4 expected)' % n, key='R2/floor/chain-readers')
 
 
 rules.callee = __import__('vlib.facts', fromlist=['callee']).callee
@@ -178,8 +177,7 @@ def check_precision_changers(ctx, F):
             else:
                 ctx.ok('R6', role, c.defpath, 'all %d reference preconditions entailed by the caller\'s assertions and branch' % len(ref), key=key)
     ctx.extra['unsafe_precision_call_sites'] = n_sites
-    if n_sites < 4:
-        ctx.bad('R6', 'floor: unsafe precision changer call sites', CHAIN, 'only %d call sites found (4 expected)' % n_sites, key='R6/floor/precision-sites')
+    ctx.floor('R6', 'floor: unsafe precision changer call sites', CHAIN, n_sites, 4, 'only %d call sites found (4 expected)' % n_sites, key='R6/floor/precision-sites')
 
 
 def _is_try_branch(e):
@@ -301,8 +299,7 @@ def check_heads_closed(ctx, F):
             ctx.ok('R7', 'ChainCoderHeads is built only by its constructor and the precision changers', dp, 'literal site (inventory)', key=key)
         else:
             ctx.unresolved('R7', 'ChainCoderHeads is built only by its constructor and the precision changers', dp, 'new literal site of ChainCoderHeads: the head invariants are not re-established by a known routine', key=key, loc=rules.loc(b))
-    if len(sites) < 3:
-        ctx.bad('R7', 'floor: ChainCoderHeads literal sites', HEADS, 'only %d literal sites found' % len(sites), key='R7/floor/heads-literals')
+    ctx.floor('R7', 'floor: ChainCoderHeads literal sites', HEADS, len(sites), 3, 'only %d literal sites found' % len(sites), key='R7/floor/heads-literals')
 
 
 def _seed_of_head(ev, r, term):
